@@ -556,6 +556,9 @@ func wgFamily(r *rng, nNodes int, nRandom int, seedBase uint64, tinyPerms bool) 
 			Generative: true,
 			MapDen:     []uint32{5, 5, 8, 16}[r.intn(4)],
 			MapKinds:   uint32(2 + r.intn(30)), // random non-empty subset of kinds 1..4
+			// only matters if the builder starts goroutines of its own
+			PreemptDen: []uint32{0, 2, 4, 16}[r.intn(4)],
+			MaxSteps:   5_000_000,
 		}
 		cfg.MapKinds &= 0b11110
 		if cfg.MapKinds == 0 {
